@@ -1,5 +1,6 @@
 // C07 — no IP address survives the log scrubber.
-// Engine: api (exported safelog.Scrub and safelog.LogScrubber), -race.
+// Engine: api (exported safelog.Scrub and safelog.LogScrubber); the concurrent
+// part under -race, the sequential bulk without (regexp is ~30x slower there).
 //
 // Oracle (DESIGN.md appendix A2), written without any regular expression:
 //   (a) the host text of a planted address must not be a substring of what
@@ -427,21 +428,6 @@ func (d *doc) valid() bool {
 	return true
 }
 
-// withItemReplaced returns the text with item i replaced by a filler word.
-func (d *doc) withItemReplaced(i int, word string) string {
-	var b strings.Builder
-	for k, it := range d.items {
-		b.WriteString(d.seps[k])
-		if k == i {
-			b.WriteString(word)
-		} else {
-			b.WriteString(it.text)
-		}
-	}
-	b.WriteString(d.seps[len(d.items)])
-	return b.String()
-}
-
 type lineOpts struct {
 	maxItems  int
 	addrBias  int // per-cent chance that an item is an address
@@ -605,12 +591,6 @@ func (d *doc) ctx(i int) (left, right string) {
 		c, _ := utf8.DecodeRuneInString(s)
 		right = runeClass(c, false)
 	}
-	if i > 0 && d.items[i-1].isAddr {
-		left = "addr+" + left
-	}
-	if i+1 < len(d.items) && d.items[i+1].isAddr {
-		right += "+addr"
-	}
 	return
 }
 
@@ -623,38 +603,66 @@ func scrubGuarded(b []byte) (out []byte, panicked bool) {
 	return safelog.Scrub(b), false
 }
 
+// aloneText: the text with every planted address except item i replaced by a
+// filler word.
+func (d *doc) aloneText(i int) string {
+	var b strings.Builder
+	for k, it := range d.items {
+		b.WriteString(d.seps[k])
+		if k != i && it.isAddr {
+			b.WriteString("zq")
+		} else {
+			b.WriteString(it.text)
+		}
+	}
+	b.WriteString(d.seps[len(d.items)])
+	return b.String()
+}
+
 // classify derives the signature of a surviving address from the shape of the
-// input around it.
+// input around it. A miss is "intrinsic" when the address also survives with
+// every other address on the stream replaced by a word: then the signature
+// names its text shape, form and delimiter context. Otherwise the miss is
+// caused by neighbouring addresses and the signature names how the address is
+// separated from the preceding one.
 func classify(d *doc, s survivor, all []survivor) string {
 	i := s.idx
 	it := d.items[i]
-	left, right := d.ctx(i)
-	// D5 class: exactly one delimiter character between this address and a
-	// preceding address that itself was scrubbed — and the miss disappears
-	// when that neighbour is replaced by a word (so it is caused by the
-	// adjacency, not by this address's own shape or context).
-	if i > 0 && d.items[i-1].isAddr && utf8.RuneCountInString(d.seps[i]) == 1 {
-		prevSurvived := false
-		for _, o := range all {
-			if o.idx == i-1 {
-				prevSurvived = true
-			}
-		}
-		if !prevSurvived {
-			alone, panicked := scrubGuarded([]byte(d.withItemReplaced(i-1, "zq")))
-			if !panicked && len(survivors(d, string(alone), i)) == 0 {
-				return "residue:adjacent-addresses-single-delimiter"
-			}
-		}
+	intrinsic := true
+	if d.nAddr() > 1 {
+		alone, panicked := scrubGuarded([]byte(d.aloneText(i)))
+		intrinsic = panicked || len(survivors(d, string(alone), i)) > 0
 	}
-	// D5b class: seven groups then "::", followed by anything but whitespace.
-	if it.tok.shape == "ipv6-7g-dc-0g" {
-		r := strings.TrimSuffix(right, "+addr")
-		if !(it.tok.form == "bare" && (r == "ws" || r == "eol" || r == "eof")) {
+	if intrinsic {
+		switch it.tok.shape {
+		case "ipv6-7g-dc-0g": // D5b
 			return "residue:ipv6-seven-groups-then-double-colon"
+		case "ipv6-0g-dc-7g":
+			return "residue:ipv6-double-colon-then-seven-groups"
+		}
+		left, right := d.ctx(i)
+		return fmt.Sprintf("residue:%s:%s:%s-%s", it.tok.shape, it.tok.form, left, right)
+	}
+	// nearest preceding address
+	p := i - 1
+	for p >= 0 && !d.items[p].isAddr {
+		p--
+	}
+	switch {
+	case p < 0:
+		return "residue:multi-address-interaction:no-preceding-address"
+	case p < i-1:
+		return "residue:multi-address-interaction:words-between"
+	case utf8.RuneCountInString(d.seps[i]) > 1:
+		return "residue:multi-address-interaction:several-delimiters-between"
+	}
+	for _, o := range all {
+		if o.idx == p {
+			return "residue:multi-address-interaction:single-delimiter-after-unscrubbed-address"
 		}
 	}
-	return fmt.Sprintf("residue:%s:%s:%s-%s", it.tok.shape, it.tok.form, left, right)
+	// D5 class: exactly one delimiter character after an address that was scrubbed
+	return "residue:adjacent-addresses-single-delimiter"
 }
 
 type residueRec struct {
@@ -762,13 +770,8 @@ func writeChunks(res *vlib.Result, stream []byte, cuts []int, caseID string) (si
 	return sink, !panicked
 }
 
+// looksLikeAddr is a loose syntactic test used only to name a split-dependence.
 func looksLikeAddr(s string) bool {
-	s = strings.TrimLeft(s, "[")
-	if i := strings.IndexByte(s, ']'); i >= 0 {
-		s = s[:i]
-	} else if strings.Count(s, ".") == 3 {
-		s = stripPort(s)
-	}
 	if len(s) < 2 {
 		return false
 	}
@@ -780,7 +783,28 @@ func looksLikeAddr(s string) bool {
 	return strings.Count(s, ".") == 3 || strings.Count(s, ":") >= 2
 }
 
-func isTokChar(c byte) bool { return isAddrChar(c) || c == '[' || c == ']' }
+// leadingAddr: does the line begin with an address token (bare, bracketed, with port)?
+func leadingAddr(line string) bool {
+	line = strings.TrimLeft(line, "[")
+	h := 0
+	for h < len(line) && isAddrChar(line[h]) {
+		h++
+	}
+	return looksLikeAddr(line[:h]) || looksLikeAddr(stripPort(line[:h]))
+}
+
+// trailingAddr: does the line end with an address token?
+func trailingAddr(line string) bool {
+	if i := strings.LastIndex(line, "]:"); i >= 0 && stripPort("x"+line[i+1:]) == "x" {
+		line = line[:i+1] // "[host]:port" -> "[host]"
+	}
+	line = strings.TrimRight(line, "]")
+	t := len(line)
+	for t > 0 && isAddrChar(line[t-1]) {
+		t--
+	}
+	return looksLikeAddr(line[t:]) || looksLikeAddr(stripPort(line[t:]))
+}
 
 // splitClass names a split-dependence by the shape of the input around the
 // first line on which the two sinks differ.
@@ -802,19 +826,10 @@ func splitClass(stream, got, want []byte) string {
 		return "other"
 	}
 	cur, prev := string(in[k]), string(in[k-1])
-	h := 0
-	for h < len(cur) && isTokChar(cur[h]) {
-		h++
-	}
-	t := len(prev)
-	for t > 0 && isTokChar(prev[t-1]) {
-		t--
-	}
-	head, tail := cur[:h], prev[t:]
 	switch {
-	case looksLikeAddr(head) && looksLikeAddr(tail):
+	case leadingAddr(cur) && trailingAddr(prev):
 		return "adjacent-addresses-across-newline"
-	case looksLikeAddr(head) && strings.HasSuffix(tail, ":") && looksLikeAddr(strings.TrimSuffix(tail, ":")):
+	case leadingAddr(cur) && strings.HasSuffix(prev, ":") && trailingAddr(strings.TrimSuffix(prev, ":")):
 		return "address-colon-newline-address"
 	}
 	return "other"
@@ -1116,11 +1131,11 @@ func encNum(n int) string {
 
 // 5. concurrent writers, each Write one complete line.
 func concurrentWriters(res *vlib.Result, root *vlib.Rand) {
-	rounds := vlib.Scale(8, 60)
+	rounds := vlib.Scale(6, 30)
 	for round := 0; round < rounds; round++ {
 		r := root.SplitN("conc", round)
 		nw := r.Range(2, 8)
-		per := vlib.Scale(250, 1500)
+		per := vlib.Scale(200, 600)
 		lines := make([][][]byte, nw)
 		want := map[string]int{}
 		for w := 0; w < nw; w++ {
@@ -1204,7 +1219,7 @@ func concurrentWriters(res *vlib.Result, root *vlib.Rand) {
 // ---- the test -------------------------------------------------------------------
 
 func TestVerifC07(t *testing.T) {
-	res := vlib.NewResult("C07", "api-c07", "addresses in every text form Go prints/accepts (dotted quad; full, compressed, upper-case, zero-padded IPv6; '::'; IPv4-mapped/embedded; bracketed; ports; zones; CIDR) planted between line boundaries, whitespace and punctuation other than ':' '.' '_' among filler words over [g-zG-Z_]: (1) the complete product 60 shapes x 3 forms x left x right contexts through Scrub, (2) PRNG lines with 1..8 addresses through LogScrubber, (3) multi-line streams under every 2-way byte split, byte-by-byte and PRNG k-way splits (with zero-length writes, trailing partial lines) compared with the single-Write sink, (4) arbitrary byte streams likewise, (5) 2..8 concurrent writers of whole lines; non-trivial = enumerated case (distinct by shape/form/contexts), line with >=2 addresses (distinct by text), splitting that cuts inside an address (distinct by stream and cut set), concurrent round")
+	res := vlib.NewResult("C07", "api-c07", "addresses in every text form Go prints/accepts (dotted quad; full, compressed, upper-case, zero-padded IPv6; '::'; IPv4-mapped/embedded; bracketed; ports; zones; CIDR) planted between line boundaries, whitespace and punctuation other than ':' '.' '_' among filler words over [g-zG-Z_]: (1) the complete product 60 shapes x 3 forms x left x right contexts through Scrub, (2) PRNG lines with 1..8 addresses through LogScrubber, (3) multi-line streams under every 2-way byte split, byte-by-byte and PRNG k-way splits (with zero-length writes, trailing partial lines) compared with the single-Write sink, (4) arbitrary byte streams likewise; non-trivial = enumerated case (distinct by shape/form/contexts), line with >=2 addresses (distinct by text), splitting that cuts inside an address (distinct by stream and cut set)")
 	defer res.Finish()
 	root := vlib.NewRand(vlib.Seed()).Split("c07")
 	res.Note("delimiters", "whitespace {space,\\t,\\r,\\f,\\v}, ASCII punctuation except ':' '.' '_', and 9 non-ASCII spaces/punctuation; ':' is outside the property, '.' and '_' are left out as doubtful (address character / word character)")
@@ -1218,7 +1233,6 @@ func TestVerifC07(t *testing.T) {
 	phase("lines", func() { randomLines(res, root) })
 	phase("streams", func() { splitStreams(res, root) })
 	phase("arbitrary", func() { arbitraryStreams(res, root) })
-	phase("concurrent", func() { concurrentWriters(res, root) })
 
 	res.RequireObs("shapes_enumerated", 60)
 	res.RequireObs("enumerated_cases", 60*3*30*30)
@@ -1234,7 +1248,7 @@ func TestVerifC07(t *testing.T) {
 	for _, f := range []string{"bare", "port", "bracketed", "bracketed-port", "zone", "bracketed-zone-port", "cidr"} {
 		res.RequireObs("form_"+f, 300)
 	}
-	for _, c := range []string{"left_bol", "left_ws", "left_punct", "left_nonascii", "left_addr+ws", "left_addr+punct", "right_eol", "right_ws", "right_punct", "right_nonascii", "right_ws+addr", "right_punct+addr"} {
+	for _, c := range []string{"left_bol", "left_ws", "left_punct", "left_nonascii", "right_eol", "right_ws", "right_punct", "right_nonascii"} {
 		res.RequireObs(c, 300)
 	}
 	res.RequireObs("streams", 400)
@@ -1245,6 +1259,16 @@ func TestVerifC07(t *testing.T) {
 	res.RequireObs("splittings_inside_an_address", 3000)
 	res.RequireObs("sink_writes_checked", 20000)
 	res.RequireObs("arbitrary_streams", 250)
-	res.RequireObs("concurrent_rounds", 8)
-	res.RequireObs("concurrent_lines", 8000)
+}
+
+// TestVerifC07Concurrent is the part that runs under the race detector
+// (regexp matching is ~30x slower there, so the sequential bulk above is a
+// separate part built without it).
+func TestVerifC07Concurrent(t *testing.T) {
+	res := vlib.NewResult("C07", "api-c07-race", "2..8 goroutines share one LogScrubber and each writes whole PRNG lines (0..4 addresses, tagged per writer and line) one Write per line, under -race; the sink must consist of exactly the individually scrubbed lines, every sink Write ending in newline; non-trivial = one round (distinct by round)")
+	defer res.Finish()
+	root := vlib.NewRand(vlib.Seed()).Split("c07")
+	concurrentWriters(res, root)
+	res.RequireObs("concurrent_rounds", 6)
+	res.RequireObs("concurrent_lines", 3000)
 }
